@@ -7,7 +7,7 @@ CHECKS = {
  "C12": dict(
   level="model_checking", design="6/C12", engine="sched",
   technique="stateless schedule exploration: preemption-bounded baton scheduler over real threads racing on the real lazycompile wrapper (stub + real Numba compilation), controlled dask scheduler enumerating task orders with bounded deviations, virtual prange (AST transform, one cooperative thread per row); exhaustive configuration product (chunkings x layouts x schedulers x thread counts)",
-  text="All interleavings at line granularity / preemption-bounded at bytecode granularity for 2-3 threads; dask task orders with <=1 (2) deviations for 17 accessor operations; all 32 (y,x) chunkings x 3 (6) layouts x 2 (7) schedulers; all 31 time chunkings (raise or equal eager); pixel permutations; thread counts 1..16; prange body interleavings with <=2 (3) preemptions. Oracle: eager / sequential result, bit-exact. The thread count a kernel asks for (numba.get_num_threads) is enumerated 1..6 on 1..7 rows in the virtualised source. Joint graphs: 15 operation pairs (two auxiliary inputs on one lazy cube; one call on two cubes) evaluated with dask.compute(a, b) and as a - b, 3 chunkings x 2 schedulers, each against its in-memory result. float32 cubes with scalar arguments float32 cannot represent; 26 joint pairs varying one input at a time; other ranks and extents (1-d, 2-d, 4-d, single pixel / row / column); three calls on one object with the input checked untouched. A dask-backed object loaded in place; in-memory data edited in place between calls; joint graphs over two time labellings of the same stored data. Non-index coordinates (scalar, 2-d, per row) across dimension orders and backends.",
+  text="All interleavings at line granularity / preemption-bounded at bytecode granularity for 2-3 threads; dask task orders with <=1 (2) deviations for 17 accessor operations; all 32 (y,x) chunkings x 3 (6) layouts x 2 (7) schedulers; all 31 time chunkings (raise or equal eager); pixel permutations; thread counts 1..16; prange body interleavings with <=2 (3) preemptions. Oracle: eager / sequential result, bit-exact. The thread count a kernel asks for (numba.get_num_threads) is enumerated 1..6 on 1..7 rows in the virtualised source. Joint graphs: 15 operation pairs (two auxiliary inputs on one lazy cube; one call on two cubes) evaluated with dask.compute(a, b) and as a - b, 3 chunkings x 2 schedulers, each against its in-memory result. float32 cubes with scalar arguments float32 cannot represent; 26 joint pairs varying one input at a time; other ranks and extents (1-d, 2-d, 4-d, single pixel / row / column); three calls on one object with the input checked untouched. A dask-backed object loaded in place; in-memory data edited in place between calls; joint graphs over two time labellings of the same stored data. Non-index coordinates (scalar, 2-d, per row) across dimension orders and backends. Sequences across objects in one process (same bytes as another dtype, other nodata / time labels / data) against references from children forked before the sequence.",
   note="Native-code interleavings (GIL-free gufunc loops, Numba threading layer) are not controllable from Python; configurations are enumerated there. The free-running lazy pass is sampling and reported as a supplement."),
  "C13": dict(
   level="translation_validation", design="6/C13", engine="sse-product",
